@@ -169,6 +169,48 @@ def run_programs(ctx, progs, osets, found_by):
         ctx.sample({'stage': found_by, 'id': progs[-1][0], 'source': progs[-1][1][:300]})
 
 
+# ---- allow_rename_locals / allow_rename_globals against their Lean model (PMV.Freeze; theorems T09.3, T10.4) ----
+
+def freeze_correspondence(ctx, progs, found_by):
+    """which bindings the two functions freeze, asked of the implementation and of the model on the same tree of nodes, namespaces
+    and bindings, with renaming off (what taint sets), on, and on with names of the program listed"""
+    import freeze_corr
+    import re
+    reqs, meta = [], []
+    for ident, src in progs:
+        names = sorted(set(re.findall(r'[A-Za-z_][A-Za-z_0-9]*', src)) - {'def', 'class', 'return', 'lambda', 'import', 'from', 'for', 'in', 'if', 'else'})
+        picked = ctx.rng.sample(names, min(len(names), 3)) if names else []
+        for rl, pl, rg, pg in ((False, [], False, []), (True, picked, True, picked), (True, [], True, []), (False, picked, True, picked[:1])):
+            try:
+                req_l, req_g, real_l, real_g, already, frozen_after_locals, n = freeze_corr.requests_for(src, rl, pl, rg, pg)
+            except (SyntaxError, RecursionError):
+                break
+            reqs += [req_l, req_g]
+            meta.append((ident, src, (rl, pl, rg, pg), real_l, real_g, already, frozen_after_locals, n))
+    answers = ctx.driver.ask(reqs) if reqs else []
+    diffs = frozen = 0
+    for k, (ident, src, cfg, real_l, real_g, already, frozen_after_locals, n) in enumerate(meta):
+        a_l, a_g = answers[2 * k], answers[2 * k + 1]
+        ctx.count()
+        if not (a_l.startswith('ok') and a_g.startswith('ok')):
+            ctx.add_broken('correspondence', 'freeze:' + ident, 'driver answered %r / %r' % (a_l[:80], a_g[:80]))
+            continue
+        model_l = set(int(x) for x in a_l[3:].split())
+        model_g = set(int(x) for x in a_g[3:].split())
+        # the implementation can only be seen to freeze what was not frozen already
+        ok = set(real_l) == model_l - already and set(real_g) == model_g - frozen_after_locals
+        frozen += len(real_l) + len(real_g)
+        if model_l or model_g:
+            ctx.mark_nontrivial('freeze:%s:%r' % (ident, cfg))
+        if not ok:
+            diffs += 1
+            ctx.add_broken('correspondence', 'freeze:' + ident,
+                           'allow_rename_locals / allow_rename_globals and the model (PMV.Freeze) disagree for (rename_locals, preserve_locals, rename_globals, preserve_globals)=%r: '
+                           'implementation froze locals %r globals %r, model says %r / %r (before: %r) in %r' % (
+                               cfg, real_l, real_g, sorted(model_l - already), sorted(model_g - frozen_after_locals), sorted(already), src[:400]))
+    ctx.stage('freeze-correspondence:' + found_by, cases=len(meta), bindings_frozen=frozen, diffs=diffs)
+
+
 def control_group(ctx):
     """Shadowed trigger names are not taint triggers: renaming must still happen (keeps the oracle honest)."""
     src = ('def eval(arg):\n    return arg\ndef locals():\n    return {}\n'
@@ -191,6 +233,7 @@ def run(ctx):
     run_programs(ctx, every_binding_programs(), osets, 'every-binding-form')
     run_programs(ctx, [(i, p, b) for i, p, b, _k in rebound_programs()], osets, 'rebound-trigger-names')
     run_programs(ctx, class_rebound_programs(), osets, 'class-rebound-trigger-names')
+    freeze_correspondence(ctx, [(i, b) for i, _p, b in progs[:ctx.scale(120, 2500)]] + [('every-binding-form', EVERY_BINDING)] + scopegen.parameter_programs()[:ctx.scale(40, 400)], 'generated')
     control_group(ctx)
     for k in ctx.known:
         if k.get('replay_source'):
